@@ -16,7 +16,7 @@ PROP_MODULES = {
     'C10': ['contracts.c10'], 'C11': ['contracts.c11'], 'C12': ['contracts.c12', 'contracts.c10'],
     'C13': ['contracts.c13'], 'C14': ['contracts.c14'], 'C15': ['contracts.c15', 'contracts.c06'],
     'C16': ['contracts.c16'], 'C17': ['contracts.c17'], 'C18': ['contracts.c18', 'contracts.c04'],
-    'C19': ['contracts.c19'], 'C20': ['contracts.c20'],
+    'C19': ['contracts.c19', 'contracts.c18'], 'C20': ['contracts.c20'],
 }
 
 DROPPED = ['docstrings', 'type annotations', 'logger.* / get_logger() calls (no-ops)',
